@@ -1,6 +1,34 @@
 """Per-property specifications for ./check (what to run, how many shards, evidence rule text)."""
 
+import os
+
 PROPS = {}
+_CLI = "/verif/.target/cli/release/blots"
+
+
+def _lazy(mod, fn="offline"):
+    def call(ctx, res):
+        m = __import__(mod)
+        return getattr(m, fn)(ctx, res)
+    return call
+
+
+PROPS["C01"] = {
+    "shards": {"quick": 16, "thorough": 16},
+    "needs_cli": True,
+    "journal": True,
+    "offline": _lazy("c01"),
+    "rule": ("(1) every built-in x argument counts 0..2 exhaustively over a 55-value boundary pool (+ sampled 3-4 argument tuples), through direct call, "
+             "into, via, where and spread; (2) all 26 binary operators, prefix/postfix/index/spread/conditional forms x pool^2; (3) sources: the repository's examples, README "
+             "snippets and test strings, nesting up to 64, grammar-generated well/ill-typed programs, corpus mutants, random punctuation-heavy text; (4) JSON input documents incl. "
+             "__blots_function objects that are loaded and called; every stage (parse, AST, evaluate, validate, serialise, stringify, Display, error rendering, format at 5 widths) "
+             "runs under catch_unwind on an 8 MiB stack, spans are checked against their text, process deaths are caught by a crash journal, and a sample is replayed against the "
+             "release CLI. non-trivial = got past the parser (sources) / past the arity check (built-ins); distinct by case text"),
+    "exhaustive_subspaces": ["built-ins x arity<=2 x pool", "binary operators x pool^2"],
+    "min_nontrivial": {"quick": 5000, "thorough": 5000},
+    "assumptions": ["watchdog kills and allocation-failure aborts are resource exhaustion (inconclusive), not crashes",
+                    "factorial operands above 170 and the benchmark programs are not evaluated (minutes-long loops), only parsed and formatted"],
+}
 
 PROPS["C12"] = {
     "shards": {"quick": 8, "thorough": 16},
@@ -12,4 +40,75 @@ PROPS["C12"] = {
     "min_nontrivial": {"quick": 200, "thorough": 200},
     "assumptions": ["model::compare / sem_eq in the harness are the reference for the documented order",
                     "values are observed through the public Heap accessors"],
+}
+
+_FMT_COMMON = {
+    "shards": {"quick": 8, "thorough": 16},
+    "needs_cli": True,
+    "probe_opts": {"quick": {"cli": _CLI}, "thorough": {"cli": _CLI}},
+}
+
+PROPS["C07"] = dict(_FMT_COMMON, **{
+    "rule": ("every two-level tree shape (parent kind/position x child kind, all 26 operators) printed fully parenthesised, parsed, formatted at each width and re-parsed: "
+             "the AST must be identical; plus hand-written programs forcing each multi-line layout at 16 widths, operator triples (thorough), random programs with comments and "
+             "blank lines through the mirrored library driver and the real `blots --format`, and evaluation equivalence of source vs formatted source; "
+             "non-trivial = the formatted text differs from the input text; distinct by (source, width)"),
+    "exhaustive_subspaces": ["two-level parent x child x position shapes x width set"],
+    "min_nontrivial": {"quick": 2000, "thorough": 2000},
+    "assumptions": ["blots-wasm::format_blots cannot be executed natively; its statement loop is mirrored in the harness around the real format_expr / join_statements_with_spacing"],
+})
+PROPS["C08"] = dict(_FMT_COMMON, **{
+    "rule": ("same workload as C07 (shapes, layout programs, random programs with comments and 0-5 blank lines); format twice through format_expr, the mirrored library driver and "
+             "`blots --format`; the second pass must return the first unchanged. Cases whose first pass does not re-parse to the same program are C07 hits and skipped here. "
+             "non-trivial = first pass changed the text"),
+    "min_nontrivial": {"quick": 2000, "thorough": 2000},
+    "assumptions": ["idempotence is judged only where C07 holds (first pass re-parses to the same program)"],
+})
+PROPS["C09"] = dict(_FMT_COMMON, **{
+    "rule": ("a comment injector places comments at every position class the grammar admits (P1-P15 kept in the AST, Q1-Q8 admitted through the silent inline_comment rule) on "
+             "fixed and generated programs; a lexer-level scanner extracts the comment sequence of input and output of the library driver (widths 20, 80, default, random) and of "
+             "`blots --format`; the sequences must be equal. non-trivial = at least one comment injected and the decorated input parses"),
+    "exhaustive_subspaces": ["comment position classes x fixed statement kinds x widths {20, 80, default}"],
+    "min_nontrivial": {"quick": 500, "thorough": 500},
+    "assumptions": ["strings have no escapes, so `//` outside a quote-delimited run starts a comment"],
+})
+PROPS["C10"] = {
+    "shards": {"quick": 8, "thorough": 16},
+    "rule": ("(1) every ordered pair of the 26 binary operators in both tree shapes, triples x 5 shapes (12 level representatives in quick, all 17576 in thorough), every "
+             "prefix/postfix/call/index/field x binary combination: the minimally parenthesised text (per the table stated in C10, the harness's own) and the fully parenthesised "
+             "text must both parse to the intended tree; (2) generated programs re-printed with optional layout (spaces, tabs, line breaks at operators/brackets/conditional parts, "
+             "end-of-line comments before breaks, redundant parentheses, trailing commas, CRLF) must parse to the same tree; (3) and/or/not vs &&/||/! evaluate identically; "
+             "(4) every reserved word extended by a prefix/suffix plus random plain names is bound and referenced in 43 expression positions. "
+             "non-trivial = minimal and full text differ / decorated text differs / expression contains a logic operator / name derived from a reserved word"),
+    "exhaustive_subspaces": ["operator pairs", "operator triples (thorough)", "reserved-word-derived names x positions"],
+    "min_nontrivial": {"quick": 3000, "thorough": 3000},
+    "assumptions": ["line break after a word operator, after `=`, after `if`, and an inline trailing comma in a call are not admitted by the grammar and not generated"],
+}
+PROPS["C11"] = {
+    "shards": {"quick": 8, "thorough": 16},
+    "rule": ("(1) all pairs of a 30-value scalar pool x 23 operators against an IEEE/concatenation/ordering model (NaN comparisons: no claim); (2) broadcasting law for the 17 "
+             "broadcasting operators x {list-scalar, scalar-list, list-list}, lengths 0..8 incl. mismatched, element pools with nested lists and mixed types: result must be the "
+             "list of element results (element operation = the real evaluator on two scalars, dot variant / coalesce / failure for list elements) and fail exactly when an element "
+             "fails or lengths differ; (3) dot comparisons on lists return one boolean equal to the value relation. non-trivial = model yields a value / list form succeeds"),
+    "exhaustive_subspaces": ["scalar pool^2 x 23 operators"],
+    "min_nontrivial": {"quick": 5000, "thorough": 5000},
+    "assumptions": ["f64 arithmetic of the harness (same toolchain) is the IEEE reference; fmod for %, powf for ^"],
+}
+PROPS["C13"] = {
+    "shards": {"quick": 8, "thorough": 16},
+    "rule": ("37 function classes (lambdas of arity 0-3, optional, rest, failing, closures, named, self- and mutually recursive, curried, built-ins of every arity class, "
+             "non-function) x random lists of length 0..10: `l via f` vs map, `l where p` vs filter, `x into f` vs f(x), every/some vs conjunction/disjunction, reduce vs a fold "
+             "done by the harness with real calls, independent (element, index) expectations, and the hook-H2 call trace (once per element, in order). "
+             "non-trivial = the operator form succeeds on a non-empty list"),
+    "min_nontrivial": {"quick": 1000, "thorough": 1000},
+    "assumptions": ["error messages are not compared, only success/failure and values"],
+}
+PROPS["C14"] = {
+    "shards": {"quick": 8, "thorough": 16},
+    "rule": ("random lists (0..40, homogeneous/mixed/duplicates/+-0), strings (ASCII, multi-byte, combining, astral, empty), records (odd keys) and integer ranges; ~70 laws with "
+             "an independent list model: len, reverse, concat, spread, head/tail, indexing at every index -n-2..n+1, odd indices (no crash, element or null), slice, flatten, chunk, "
+             "zip, unique, sort (stable permutation, ordered when comparable), sort_by (tagged elements), group_by/count_by, includes, range, keys/values/entries, field/index "
+             "access, join/split, character coherence of len/head/tail/slice with indexing and spreading. non-trivial = non-empty list / non-ASCII string / non-empty record"),
+    "min_nontrivial": {"quick": 1500, "thorough": 1500},
+    "assumptions": ["model::compare is the order used to judge sortedness"],
 }
